@@ -275,7 +275,7 @@ def evaluate(ctx, case):
     b = ctx.build(sc)
     if not b.ok:
         return [], {}
-    r = common.run_one(b.exe, case.plan.text(), timeout=120)
+    r = common.run_one(b.exe, case.plan.text(), timeout=ctx.run_timeout)
     if case.meta.get('kind') == 'alloc':
         fired, v = judge_alloc(r)
         return ([v] if v is not None else []), {'main': r}
@@ -284,7 +284,7 @@ def evaluate(ctx, case):
     clean_plan.sources[0].data = case.plan.sources[0].data
     clean_plan.insts[0].acts = case.plan.insts[0].acts
     clean_plan.insts[0].top = case.plan.insts[0].top
-    cl = common.run_one(b.exe, clean_plan.text(), timeout=120)
+    cl = common.run_one(b.exe, clean_plan.text(), timeout=ctx.run_timeout)
     st = sb.status_class(r)
     if st in ('sanitizer', 'crash', 'hang'):
         return [model.Viol(st, -1, sb.san_summary(r.stderr))], {'main': r, 'clean': cl}
